@@ -62,8 +62,8 @@ _CMP_CACHE = {}
 
 def comparator_uses_addresses(F, name):
     """True iff the call operator of comparator class `name` orders by comparing raw pointers somewhere (a < b on pointer operands)."""
-    if name in _CMP_CACHE:
-        return _CMP_CACHE[name]
+    if (id(F), name) in _CMP_CACHE:
+        return _CMP_CACHE[(id(F), name)]
     res = False
     if name.startswith('std::less<') or name.startswith('std::greater<'):
         res = name.rstrip('>').rstrip().endswith('*')
@@ -73,6 +73,8 @@ def comparator_uses_addresses(F, name):
             if b is None:
                 continue
             for x in walk(b['body']):
+                if x.get('k') == 'CXXOperatorCallExpr' and re.match(r'std::(less|greater|less_equal|greater_equal)<.*\*\s*>::operator\(\)', x.get('fn') or ''):
+                    res = True
                 if x.get('k') == 'BinaryOperator' and x.get('op') in ('<', '>', '<=', '>='):
                     ts = [((strip(c) or {}).get('t') or '') for c in x['c'][:2]]
                     inner = []
@@ -83,7 +85,7 @@ def comparator_uses_addresses(F, name):
                         inner.append((c0 or {}).get('t') or '')
                     if all(t.rstrip().endswith('*') for t in inner):
                         res = True
-    _CMP_CACHE[name] = res
+    _CMP_CACHE[(id(F), name)] = res
     return res
 
 
